@@ -4,7 +4,7 @@ using the reasons below. Every rule here was written after reading the site(s) i
 audited commit; a site no rule covers stays untriaged (and is a violation). Not run by any check:
 the checker only reads the frozen JSON."""
 import sys, json, re
-dump = sys.argv[1]
+dumps = sys.argv[1:]
 R = []  # (func regex, kind regex, expr regex, reason)
 def rule(fn, kind, expr, reason): R.append((re.compile(fn), re.compile(kind), re.compile(expr), reason))
 
@@ -54,6 +54,14 @@ rule(r'pebble\.xor$|pebble\.ContentStorage\)\.(Get|Put)$', r'IsInBounds', r'node
 rule(r'TraverseTrieNode$', r'IsInBounds', r'^v\.Children\[first\]$', "first is a nibble (< 16) by construction of every path (Nibbles.Deserialize / unpackNibblePair), Children has 17 slots")
 rule(r'trie\.compactToHex$', r'Is', r'.', "after the empty check keybytesToHex returns 2n+1 >= 3 nibbles; chop is 1 or 2")
 rule(r'trie\.keybytesToHex$', r'IsInBounds', r'.', "nibbles has length 2*len(str)+1 and i < len(str)")
+# --- sites only the whole-program VTA call graph (thorough tier) reaches: serialisation of this node's own values, debugging helpers
+rule(r'\)\.MarshalSSZTo$', r'IsInBounds', r'\[ii\]$', "encoder loop ii < N entered only after the len(field) != N check (the value is this node's own)")
+rule(r'GossipAndReturnPeers\$1$', r'IsInBounds', r'^fartherNodes\[[ij]\]$', "rand.Shuffle swap callback: i, j < len(fartherNodes) passed as n")
+rule(r'gnetConn\)\.OnTraffic$', r'Is|TypeAssert', r'.', "optional gnet datagram transport (off by default): raw datagrams are the discv5 layer's input, not one of the property's entry points; with a dual-stack listener an IPv6 sender would make To4() nil - recorded as an observation in DESIGN.md")
+rule(r'state\.Nibbles\)\.Serialize$', r'IsInBounds', r'Nibbles\[i( \+ 1)?\]$', "serialises this node's own key: even branch needs an even nibble count, odd branch starts at 1 with an odd count (FromUnpackedNibbles/Deserialize build the value)")
+rule(r'state\.Nibbles\)\.HashTreeRoot$', r'Panic', r'explicit', "unimplemented hashing stub: nothing hashes state keys (only reachable through the HTR interface in the over-approximate graph)")
+rule(r'fullNode\)\.fstring$', r'IsInBounds', r'^indices\[i\]$', "debug printer: i ranges over the 17 children, indices has 17 entries")
+rule(r'\)\.(HashTreeRoot|Serialize|Deserialize)\$1$', r'IsInBounds', r'\[i\]\)?$', "ztyp list callback: invoked with i below the length it was given")
 # --- R3
 rule(r'processOffer(\$2)?$', r'TypeAssert', r'OfferRequest', "request is built by this node; Kind and the concrete request type are set together at construction")
 rule(r'ContentLookup\$1$', r'TypeAssert', r'\[\]byte', "results with a non-ENRs flag are produced by contentLookupWorker with []byte content only")
@@ -64,7 +72,8 @@ rule(r'Table\)\.(addFoundNode|addInboundNode|trackRequest)$|lookup\)\.(advance|s
 rule(r'MockStorage\)\.Radius$|GetErrorPayloadBytes$', r'MustCall', r'Must', "Must* on constants defined in the source")
 
 sites = {}
-for line in open(dump):
+import itertools
+for line in itertools.chain(*[open(d) for d in dumps]):
     f = line.rstrip('\n').split('\t')
     if f[0] == 'UNTRIAGED':
         fn, kind, expr, pos, cnt = f[1], f[2], f[3], f[4], int(f[5][1:])
